@@ -798,12 +798,18 @@ func (c *Client) Start() (addr net.Addr, err error) {
 		defer c.pipesWaitGroup.Done()
 		defer close(linesCh)
 
-		scanner := bufio.NewScanner(runner.Stdout())
+		stdout := runner.Stdout()
+		scanner := bufio.NewScanner(stdout)
 		for scanner.Scan() {
 			linesCh <- scanner.Text()
 		}
 		if scanner.Err() != nil {
 			c.logger.Error("error encountered while scanning stdout", "error", scanner.Err())
+
+			// The scanner stops for good at its first error (for example a
+			// line longer than its buffer). Keep consuming stdout so that the
+			// plugin is never blocked writing to a pipe nobody reads.
+			_, _ = io.Copy(io.Discard, stdout)
 		}
 	}()
 
